@@ -5,7 +5,7 @@ import (
 	"go/ast"
 	"go/token"
 	"go/types"
-	"sort"
+	_ "sort"
 	"strings"
 
 	"golang.org/x/tools/go/ssa"
@@ -57,189 +57,8 @@ func kindSwitch(fd *ast.FuncDecl) ([]kindClause, bool) {
 }
 
 func ruleKind(c *Ctx) {
-	want := map[string]bool{}
-	for _, k := range docKinds {
-		want[k] = true
-	}
-	sets := map[string]map[string]bool{}
-	clauses := map[string][]kindClause{}
-	for _, fn := range []string{"validNativeType", "interp.toNative", "fromNative"} {
-		fd := c.funcDecl("interp", fn)
-		if fd == nil {
-			c.undecided("anchor:"+fn, token.NoPos, "%s not found", fn)
-			return
-		}
-		cl, ok := kindSwitch(fd)
-		key := "sets:" + fn
-		if !ok {
-			c.bad(key, fd.Pos(), "%s does not decide by an explicit switch over reflect kinds (e.g. a range test on Kind()): kinds that merely fall inside a numeric range, such as uintptr, are accepted at setup and panic at call time", fn)
-			continue
-		}
-		clauses[fn] = cl
-		set := map[string]bool{}
-		for _, k := range cl {
-			// validNativeType: only clauses that can return true count
-			if fn == "validNativeType" {
-				ret := false
-				for _, s := range k.body {
-					if r, ok := s.(*ast.ReturnStmt); ok && len(r.Results) == 1 && !isIdent(r.Results[0], "false") {
-						ret = true
-					}
-				}
-				if !ret {
-					continue
-				}
-			}
-			for _, x := range k.kinds {
-				if x != "default" {
-					set[x] = true
-				}
-			}
-		}
-		sets[fn] = set
-		var missing, extra []string
-		for k := range want {
-			if !set[k] {
-				missing = append(missing, k)
-			}
-		}
-		for k := range set {
-			if !want[k] {
-				extra = append(extra, k)
-			}
-		}
-		sort.Strings(missing)
-		sort.Strings(extra)
-		c.check(len(missing) == 0 && len(extra) == 0, key, fd.Pos(), fn+" handles exactly the documented kinds", fmt.Sprintf("%s handles a different kind set than documented: missing %v, extra %v (a signature accepted at setup then panics at call time, or a documented kind is rejected)", fn, missing, extra))
-	}
-	// Slice clauses are restricted to byte elements in all three
-	for fn, cl := range clauses {
-		for _, k := range cl {
-			if containsStr(k.kinds, "Slice") {
-				txt := ""
-				for _, s := range k.body {
-					txt += nodeSrc(s)
-				}
-				c.check(strings.Contains(txt, "Uint8"), "slice-elem:"+fn, k.pos, fn+": slices are restricted to byte elements", fn+" accepts slices without testing that the element kind is Uint8")
-			}
-		}
-	}
-	// TO
-	intWidth := map[string]string{"Int": "int", "Int8": "int8", "Int16": "int16", "Int32": "int32", "Int64": "int64", "Uint": "uint", "Uint8": "uint8", "Uint16": "uint16", "Uint32": "uint32", "Uint64": "uint64", "Float32": "float32"}
-	for _, k := range clauses["interp.toNative"] {
-		if len(k.kinds) != 1 || k.kinds[0] == "default" {
-			if len(k.kinds) > 1 {
-				c.bad("to:"+strings.Join(k.kinds, ","), k.pos, "toNative handles several kinds %v in one clause: each kind needs a value of its own width", k.kinds)
-			}
-			continue
-		}
-		kind := k.kinds[0]
-		txt := ""
-		for _, s := range k.body {
-			txt += nodeSrc(s)
-		}
-		key := "to:" + kind
-		okConv := strings.Contains(txt, ".Convert(typ)")
-		var okVal bool
-		switch kind {
-		case "Bool":
-			okVal = strings.Contains(txt, ".boolean()")
-		case "String":
-			okVal = strings.Contains(txt, "toString(")
-		case "Slice":
-			okVal = strings.Contains(txt, "[]byte(") && strings.Contains(txt, "toString(")
-		case "Float64":
-			okVal = strings.Contains(txt, ".num()")
-		default:
-			okVal = strings.Contains(txt, intWidth[kind]+"(") && strings.Contains(txt, ".num()")
-		}
-		switch {
-		case !okVal:
-			c.bad(key, k.pos, "toNative(%s) does not build its value from the documented AWK conversion at this kind's width (truth value via boolean() for bool, num() truncated to %s, toString for strings): e.g. a numeric string \"0\" must arrive as false / 0", kind, intWidth[kind])
-		case !okConv:
-			c.bad(key, k.pos, "toNative(%s) hands reflect.Call a value of the predeclared type without Convert(typ): a parameter of a named type with this kind (type T %s) passes validation but panics in reflect.Call", kind, strings.ToLower(kind))
-		default:
-			c.ok(key, k.pos, "documented conversion at the kind's width, converted to the declared type")
-		}
-	}
-	// FROM
-	accessor := func(kind string) string {
-		switch {
-		case kind == "Bool":
-			return ".Bool()"
-		case strings.HasPrefix(kind, "Int"):
-			return ".Int()"
-		case strings.HasPrefix(kind, "Uint"):
-			return ".Uint()"
-		case strings.HasPrefix(kind, "Float"):
-			return ".Float()"
-		case kind == "String":
-			return ".String()"
-		case kind == "Slice":
-			return ".Bytes()"
-		}
-		return "?"
-	}
-	for _, k := range clauses["fromNative"] {
-		if k.kinds[0] == "default" {
-			continue
-		}
-		txt := ""
-		for _, s := range k.body {
-			txt += nodeSrc(s)
-		}
-		acc := accessor(k.kinds[0])
-		same := true
-		for _, x := range k.kinds {
-			if accessor(x) != acc {
-				same = false
-			}
-		}
-		key := "from:" + strings.Join(k.kinds, ",")
-		c.check(same && strings.Contains(txt, acc), key, k.pos, fmt.Sprintf("results of kind %v are read with %s", k.kinds, acc), fmt.Sprintf("fromNative reads results of kind %v with the wrong accessor (expected %s for every kind of the clause): e.g. unsigned results above 2^63 come back negative", k.kinds, acc))
-	}
-
-	// CHECK
-	cfd := c.funcDecl("interp", "checkNativeFunc")
-	if cfd == nil {
-		c.undecided("anchor:checkNativeFunc", token.NoPos, "checkNativeFunc not found")
-	} else {
-		txt := nodeSrc(cfd.Body)
-		kw := false
-		ast.Inspect(cfd.Body, func(n ast.Node) bool {
-			if be, ok := n.(*ast.BinaryExpr); ok && be.Op == token.NEQ && strings.Contains(types.ExprString(be.X), "KeywordToken(") && strings.HasSuffix(types.ExprString(be.Y), "ILLEGAL") {
-				kw = true
-			}
-			return true
-		})
-		c.check(kw, "check:keyword", cfd.Pos(), "every keyword (KeywordToken(name) != ILLEGAL) is rejected as a native function name", "checkNativeFunc does not reject every keyword (the test is not `KeywordToken(name) != ILLEGAL`): a native function named like a statement keyword or builtin passes setup but can never be called (or shadows syntax)")
-		c.check(strings.Contains(txt, "Kind() != reflect.Func"), "check:func", cfd.Pos(), "non-functions are rejected", "checkNativeFunc does not reject values whose kind is not Func")
-		c.check(strings.Contains(txt, "validNativeType(param)") && strings.Contains(txt, "IsVariadic()") && strings.Contains(txt, "param.Elem()"), "check:params", cfd.Pos(), "every parameter (element type for the variadic tail) is validated", "checkNativeFunc does not validate every parameter type (incl. the variadic element type)")
-		outs := map[string]bool{}
-		defErr := false
-		ast.Inspect(cfd.Body, func(n ast.Node) bool {
-			sw, ok := n.(*ast.SwitchStmt)
-			if !ok || sw.Tag == nil || !strings.HasSuffix(types.ExprString(sw.Tag), "NumOut()") {
-				return true
-			}
-			for _, cs := range sw.Body.List {
-				cc := cs.(*ast.CaseClause)
-				if cc.List == nil {
-					for _, s := range cc.Body {
-						if r, ok := s.(*ast.ReturnStmt); ok && len(r.Results) == 1 && !isIdent(r.Results[0], "nil") {
-							defErr = true
-						}
-					}
-				}
-				for _, e := range cc.List {
-					outs[types.ExprString(e)] = true
-				}
-			}
-			return false
-		})
-		c.check(outs["0"] && outs["1"] && outs["2"] && len(outs) == 3 && defErr, "check:results", cfd.Pos(), "0, 1 or 2 results are accepted, anything else is an error", "checkNativeFunc does not restrict the number of results to 0..2 with an error otherwise")
-		c.check(strings.Contains(txt, "Out(1) != errorType") && strings.Count(txt, "validNativeType(typ.Out(0))") >= 2, "check:result-types", cfd.Pos(), "the value result is validated and the second result must be error", "checkNativeFunc does not validate the result types (value result by validNativeType, second result exactly error)")
-	}
+	// SETS, slice-elem, TO, FROM, CHECK: per-kind evaluation on the SSA form (kindspec.go)
+	kindSpecClauses(c)
 
 	// GUARD: reflection on Funcs values
 	nRef := 0
@@ -262,33 +81,7 @@ func ruleKind(c *Ctx) {
 				}
 				nRef++
 				key := fmt.Sprintf("reflect-guard:%s:%s", fnKey(fn), m.Name())
-				guarded := false
-				for _, b := range fn.Blocks {
-					if len(b.Instrs) == 0 || !b.Dominates(in.Block()) || b == in.Block() {
-						continue
-					}
-					ifi, ok := b.Instrs[len(b.Instrs)-1].(*ssa.If)
-					if !ok {
-						continue
-					}
-					if condMentionsKindFunc(ifi.Cond, 0) {
-						guarded = true
-					}
-				}
-				// validated earlier by checkNativeFunc (initNativeFuncs: validation loop precedes)
-				if !guarded {
-					for _, b := range fn.Blocks {
-						for _, i2 := range b.Instrs {
-							if callsNamed(i2, "checkNativeFunc") && (b.Dominates(in.Block()) || reachableFromStrict(b)[in.Block()]) && b != in.Block() {
-								guarded = true
-							}
-						}
-					}
-				}
-				if fn.Name() == "callNative" {
-					// uses the cached, already validated signature; no reflection on the raw value
-					guarded = true
-				}
+				guarded := kindGuardedAt(c, fn, in, 0)
 				c.check(guarded, key, in.Pos(), "reflection on the function type happens only after its kind is known to be Func", fnKey(fn)+" calls reflect.Type."+m.Name()+" on a Funcs value before its kind has been tested: for a non-function value reflect panics (with a plain string, which the parser's recover cannot convert)")
 			})
 		}
@@ -445,6 +238,53 @@ func ruleKind(c *Ctx) {
 		})
 		c.check(guard != token.NoPos && use != token.NoPos && guard < use, "arity:parse-time", vfd.Pos(), "too many arguments is a parse error, raised before parameter i is looked up", "the resolver indexes the callee's parameter list by argument position without first rejecting calls with more arguments than parameters")
 	}
+}
+
+// kindGuardedAt: the instruction runs only after the Funcs value's kind is known to be Func: a dominating test
+// of Kind() against Func, an earlier call of checkNativeFunc in the same function, the cached signature in
+// callNative, or - for a helper - the same at every one of its call sites in the package.
+func kindGuardedAt(c *Ctx, fn *ssa.Function, in ssa.Instruction, depth int) bool {
+	for _, b := range fn.Blocks {
+		if len(b.Instrs) == 0 || !b.Dominates(in.Block()) || b == in.Block() {
+			continue
+		}
+		if ifi, ok := b.Instrs[len(b.Instrs)-1].(*ssa.If); ok && condMentionsKindFunc(ifi.Cond, 0) {
+			return true
+		}
+	}
+	// validated earlier by checkNativeFunc (initNativeFuncs: validation loop precedes)
+	for _, b := range fn.Blocks {
+		for _, i2 := range b.Instrs {
+			if callsNamed(i2, "checkNativeFunc") && (b.Dominates(in.Block()) || reachableFromStrict(b)[in.Block()]) && b != in.Block() {
+				return true
+			}
+		}
+	}
+	if fn.Name() == "callNative" {
+		// uses the cached, already validated signature; no reflection on the raw value
+		return true
+	}
+	if depth >= 3 || fn.Pkg == nil {
+		return false
+	}
+	sites, good := 0, 0
+	for _, m := range fn.Pkg.Members {
+		_ = m
+	}
+	for _, g := range c.srcFuncs(strings.TrimPrefix(strings.TrimPrefix(fn.Pkg.Pkg.Path(), modPath), "/")) {
+		g := g
+		allInstrs(g, func(i2 ssa.Instruction) {
+			call, ok := i2.(ssa.CallInstruction)
+			if !ok || call.Common().StaticCallee() != fn {
+				return
+			}
+			sites++
+			if kindGuardedAt(c, g, i2, depth+1) {
+				good++
+			}
+		})
+	}
+	return sites > 0 && sites == good
 }
 
 func condMentionsKindFunc(v ssa.Value, depth int) bool {
